@@ -73,12 +73,11 @@ impl ArrValue {
 
 	pub fn filter(self, filter: NativeFn!((Thunk<Val>) -> bool)) -> Result<Self> {
 		// TODO: ArrValue::Picked(inner, indexes) for large arrays
-		'eager: {
+		// Eager result only for arrays whose elements need no evaluation: the predicate
+		// might not look at an element, and then nothing should evaluate it.
+		if let Some(cheap) = self.iter_cheap() {
 			let mut out = Vec::new();
-			for i in self.iter() {
-				let Ok(i) = i else {
-					break 'eager;
-				};
+			for i in cheap {
 				if filter.call(IntoUntyped::into_lazy_untyped(i.clone()))? {
 					out.push(i);
 				}
